@@ -281,3 +281,8 @@ NODE_DOWN_KEYS = ("process-died", "serve-loop-stuck", "serve-loop-blocked", "api
 PROPS["C20"]["engines"] = PROPS["C20"]["engines"] + ["defaults"]
 PROPS["C20"]["rule"] += (" ; defaults engine: dht.DefaultSendLimiter reassigned / adjusted in place before servers are built with "
                          "NewDefaultServerConfig() or a config without a limiter: 20 pings, at most the configured budget answered")
+
+# C16: an announce is a sequence of Server.Query calls; the schedules that wedge a node around one query (reply in the
+# abandonment window, duplicated replies, ...) are those of the query engine, whose node-down lines count for C16 (see above)
+PROPS["C16"]["engines"] = PROPS["C16"]["engines"] + ["query"]
+PROPS["C16"]["rule"] += " ; query engine: single-query schedules (see C14); a node found dead or wedged there cannot finish an announce"
